@@ -2,9 +2,9 @@ CONSTANTS
   Macs <- M1
   Ips <- I1
   Sw <- Sw2
-  Locs <- Locs3
+  Locs <- Locs4
   Links <- Cable
-  Kinds <- KMain
+  Kinds <- KAll
   ArpAware = 60
   ArpSilent = 180
   ArpReply = 30
